@@ -1692,3 +1692,7 @@ def search(ctx, res):
 def replay(ctx, payload):
     print(json.dumps(payload.get('case'), indent=1, default=str))
     return 0
+
+
+def gen_tables(ctx):
+    common.source_tie('C17')
